@@ -1457,6 +1457,19 @@ class Circuit(Unitary, StateVectorMap, Collection[Operation]):
             self.insert(cycle_index, op)
             return
 
+        # Resolve the cycle index once, the way `insert` does for a single
+        # operation, so every operation of `circuit` goes to the same place.
+        if not self.is_cycle_in_range(cycle_index):
+            if self.num_cycles != 0 and cycle_index < -self.num_cycles:
+                cycle_index = 0
+            else:
+                # Out-of-bounds, append in order rather than insert.
+                self.append_circuit(circuit, location)
+                return
+
+        elif cycle_index < 0:
+            cycle_index = self.num_cycles + cycle_index
+
         for op in reversed(circuit):
             mapped_location = [location[q] for q in op.location]
             self.insert(
